@@ -305,6 +305,8 @@ func C15(r *Run) *core.Report {
 		recordTwin()
 	}
 	rep.MinCount("C15.J1", "janitor go statements", nGo, 2)
+	// the interval the guard tests is the caller's: the NewDefault family hands its arguments on unconditionally
+	defaultCtorFlow(r, rep, "C15.J1")
 	// J4/J5 module-wide
 	for _, f := range r.P.Funcs {
 		if f.Pkg != r.P.Cache {
@@ -504,7 +506,8 @@ func c15select(r *Run, rep *core.Report, idx int, ctor, cl *ssa.Function, ticker
 			for b := range blockReachUntil(cb, sel.Block()) {
 				for _, in := range b.Instrs {
 					if c, ok := in.(ssa.CallInstruction); ok {
-						if cal := core.Callee(c); cal != nil && cal == r.M.CacheM[idx]["DeleteExpired"] {
+						de := r.M.CacheM[idx]["DeleteExpired"]
+						if cal := core.Callee(c); cal != nil && (cal == de || (cal == pureDelegate(de) && len(c.Common().Args) == 1)) {
 							calls = true
 						}
 					}
@@ -555,4 +558,40 @@ func blockReachUntil(from, until *ssa.BasicBlock) map[*ssa.BasicBlock]bool {
 	}
 	walk(from)
 	return seen
+}
+
+// pureDelegate: f does nothing but call g with exactly its own parameters (a public method kept as a thin wrapper of
+// an internal one); calling g with the same arguments is then the same as calling f.
+func pureDelegate(f *ssa.Function) *ssa.Function {
+	if f == nil || len(f.Blocks) != 1 {
+		return nil
+	}
+	var g *ssa.Function
+	n := 0
+	for _, in := range f.Blocks[0].Instrs {
+		switch x := in.(type) {
+		case *ssa.Call:
+			n++
+			cal := core.Callee(x)
+			if cal == nil || cal.Blocks == nil || len(x.Call.Args) != len(f.Params) {
+				return nil
+			}
+			for i, a := range x.Call.Args {
+				if a != ssa.Value(f.Params[i]) {
+					return nil
+				}
+			}
+			g = cal
+		case *ssa.Return, *ssa.DebugRef:
+		default:
+			return nil
+		}
+	}
+	if n != 1 {
+		return nil
+	}
+	if o := g.Origin(); o != nil {
+		g = o
+	}
+	return g
 }
